@@ -210,9 +210,18 @@ def run(tier):
             comb = combine_with_result(text, e["out_items"])
             if comb:
                 second.append(comb)
+            # the same with the operands of the result's last non-commutative operation exchanged: an instruction that LOOKS like the rule's
+            # result (same opcode, same operands in the other order) is present; the rule may not take it for its result
+            oi = [list(x) for x in e["out_items"]]
+            idx = [i for i, (nm, _) in enumerate(oi) if nm in ("SHR", "SHL", "SAR", "SUB", "DIV", "SDIV", "MOD", "SMOD", "LT", "GT", "SLT", "SGT", "EXP", "BYTE", "SIGNEXTEND")]
+            if idx:
+                sw = oi[:idx[-1]] + [["SWAP1", None]] + oi[idx[-1]:]
+                comb2 = combine_with_result(text, sw)
+                if comb2:
+                    second.append(comb2)
     second = list(dict.fromkeys(second))
-    if tier == "quick" and len(second) > 400:
-        second = rng.sample(second, 400)
+    if tier == "quick" and len(second) > 500:
+        second = rng.sample(second, 500)
     c["rule-result-already-present-blocks"] = len(second)
     runs += e2e.run_optimize(second, [["-greedy"]], assign="all")
     bpairs = []
